@@ -1,5 +1,6 @@
 (* C15/Syntax.v -- types shared by the generated file Gen/InterpWeights.v and C15/Model.v. *)
-From Coq Require Import ZArith.
+From Coq Require Import ZArith List Bool.
+Import ListNotations.
 
 Inductive scheme := SNearest | SLinear.
 
@@ -8,3 +9,15 @@ Inductive scheme := SNearest | SLinear.
    and the weights they get *)
 Record axdat (T : Type) := mkax { e_lo : Z; e_hi : Z; w_lo : T; w_hi : T }.
 Arguments mkax {T}. Arguments e_lo {T}. Arguments e_hi {T}. Arguments w_lo {T}. Arguments w_hi {T}.
+
+(* error classes of rejected calls *)
+Inductive errkind := ETypeErr | EValueErr.
+
+(* shapes *)
+Definition prodn (l : list nat) : nat := fold_right Nat.mul 1%nat l.
+Fixpoint nats_eqb (a b : list nat) : bool :=
+  match a, b with
+  | [], [] => true
+  | x :: a', y :: b' => (x =? y)%nat && nats_eqb a' b'
+  | _, _ => false
+  end.
